@@ -463,6 +463,7 @@ type c16Obs struct {
 	RdX      string   `json:"rd_x"`
 	RdP      string   `json:"rd_p"`
 	WrX      string   `json:"wr_x"`
+	WrText   string   `json:"wr_text,omitempty"`
 	ErX      string   `json:"er_x"` // early Read (issued during the handshake)
 	EwX      string   `json:"ew_x"` // early Write
 	ClosedX  bool     `json:"closed_x"`
@@ -497,25 +498,55 @@ const c16DataSteps = 4
 
 func c16BubbleGoroutines() int { return runtime.NumGoroutine() }
 
-func c16Stacks() string {
-	buf := make([]byte, 1<<18)
+// c16Leaked lists the goroutines of synctest bubbles other than the harness's own three
+// (the test function, synctest's root, testing's waiter). Bubbles run one after the other,
+// so anything else is a goroutine left behind by the connections under test.
+func c16Leaked() []string {
+	buf := make([]byte, 1<<20)
 	n := runtime.Stack(buf, true)
 	var keep []string
 	for _, g := range strings.Split(string(buf[:n]), "\n\n") {
-		if strings.Contains(g, "synctest bubble") || strings.Contains(g, "pion/dtls") {
-			lines := strings.Split(g, "\n")
-			if len(lines) > 9 {
-				lines = lines[:9]
-			}
-			keep = append(keep, strings.Join(lines, " | "))
+		head, _, _ := strings.Cut(g, "\n")
+		if !strings.Contains(head, "synctest bubble") {
+			continue
 		}
+		if strings.Contains(g, "c16Bubble") || strings.Contains(g, "internal/synctest.Run(") ||
+			strings.Contains(g, "testingSynctestTest") || strings.Contains(g, "TestVerifC16") {
+			continue
+		}
+		lines := strings.Split(g, "\n")
+		if len(lines) > 13 {
+			lines = lines[:13]
+		}
+		keep = append(keep, strings.Join(lines, " | "))
 	}
-	s := strings.Join(keep, " ## ")
-	if len(s) > 3000 {
-		s = s[:3000]
+
+	return keep
+}
+
+func c16Stacks() string {
+	s := strings.Join(c16Leaked(), " ## ")
+	if len(s) > 4000 {
+		s = s[:4000]
 	}
 
 	return s
+}
+
+// c16LeakCheck: goroutines left after both connections were closed through the API.
+func c16LeakCheck(base int) (int, string) {
+	if c16BubbleGoroutines()-base <= 0 {
+		return 0, ""
+	}
+	var left []string
+	for i := 0; i < 600; i++ { // goroutines between their last channel operation and their exit
+		if left = c16Leaked(); len(left) == 0 {
+			return 0, ""
+		}
+		runtime.Gosched()
+	}
+
+	return len(left), c16Stacks()
 }
 
 // c16Run executes one scenario inside the current bubble.
@@ -771,6 +802,7 @@ func c16After(
 	if wrX != nil && obs.WrX == "" {
 		obs.WrX = wrX.class()
 	}
+	obs.WrText = wrX.text()
 	obs.ClosedX = X.Conn.isConnectionClosed()
 	obs.ClosedP = P.Conn.isConnectionClosed()
 	obs.Texts += strings.Join([]string{hsX.text(), hsP.text()}, ";")
@@ -849,15 +881,8 @@ func c16Finish(t *testing.T, l *c16Lab, obs *c16Obs, base int, X, P *vPeer, mark
 	}
 	_ = mark
 	synctest.Wait()
-	if n := c16BubbleGoroutines() - base; n > 0 && obs.Leak == 0 {
-		// give exiting goroutines a moment (they may be between channel close and return)
-		for i := 0; i < 2000 && c16BubbleGoroutines()-base > 0; i++ {
-			runtime.Gosched()
-		}
-		if n = c16BubbleGoroutines() - base; n > 0 {
-			obs.Leak = n
-			obs.LeakInfo = c16Stacks()
-		}
+	if obs.Leak == 0 {
+		obs.Leak, obs.LeakInfo = c16LeakCheck(base)
 	}
 	// release anything still parked on the endpoints so that the bubble can end
 	_ = X.EP.Close()
@@ -1204,14 +1229,9 @@ func c16Stress(t *testing.T, variant string, iter int, seed uint64) c16StressObs
 	ax, _ := c16Alerts(log, X.Name, P.Conn, 0)
 	ap, _ := c16Alerts(log, P.Name, X.Conn, 0)
 	obs.CNX, obs.CNP = c16CountCN(ax), c16CountCN(ap)
-	if n := c16BubbleGoroutines() - base; n > 0 {
-		for i := 0; i < 2000 && c16BubbleGoroutines()-base > 0; i++ {
-			runtime.Gosched()
-		}
-		if n = c16BubbleGoroutines() - base; n > 0 {
-			obs.Leak = n
-			obs.LeakInfo += c16Stacks()
-		}
+	if n, info := c16LeakCheck(base); n > 0 {
+		obs.Leak = n
+		obs.LeakInfo += info
 	}
 	_ = X.EP.Close()
 	_ = P.EP.Close()
